@@ -501,3 +501,117 @@ def r10(ctx):
 def r11(ctx):
     from rules import c01
     c01.r3(ctx)
+
+
+@rule('C17', 'R-C17-12', 'T13 PAIR (each matrix is padded with its own pad value)',
+      'in Batch<TrainItem>::tensorize every pad_ids call pads the matrix of field F with the pad value that belongs to F: token_ids with the '
+      'item\'s pad_token_id, target_token_ids with target_pad_token_id, labels with -1. Padding the target ids with the input tokenizer\'s pad id '
+      'fills the rows with an ordinary token of the target vocabulary')
+def r12(ctx):
+    from analysis.alts import flatten, expand
+    from analysis.seq import apply_fn, ITEM
+    cands = [b for b in ctx.facts.bodies if b.path.endswith('::tensorize') and b.kind != 'Closure' and b.impl_self and 'TrainItem' in b.impl_self and b.file() == 'src/data/mod.rs']
+    if len(cands) != 1:
+        raise AnchorMissing('Batch<TrainItem>::tensorize (found %d)' % len(cands))
+    b = cands[0]
+    WANT = {'token_ids': 'pad_token_id', 'target_token_ids': 'target_pad_token_id', 'labels': -1}
+    n = 0
+    for t in b.calls(r'data::pad_ids$'):
+        m = core(init_value(b, sym(b, t.args[0])))
+        fields = set()
+        # the matrix: component k of unzip / multiunzip over filter_map / map with a closure that returns (Some of) a tuple
+        k = None
+        src = m
+        if m[0] == 'field' and isinstance(m[2], int):
+            k, src = m[2], core(m[1])
+        clo = [x for x in walk(src) if isinstance(x, tuple) and x and x[0] == 'agg' and x[1] == 'closure']
+        if clo:
+            val = apply_fn(ctx.facts, clo[0], (ITEM,))
+            for a in flatten(expand(ctx.facts, b, nosite(val))) if not (isinstance(val, tuple) and val and val[0] == 'choice') else flatten(val):
+                v = peel(a.value)
+                if v[0] == 'agg' and v[2].endswith('Option::None'):
+                    continue
+                if v[0] == 'agg' and v[2].endswith('Option::Some') and v[3]:
+                    v = peel(v[3][0])
+                comp = v[3][k] if k is not None and v[0] == 'agg' and v[1] == 'tuple' and k < len(v[3]) else v
+                for x in walk(comp):
+                    if isinstance(x, tuple) and x and x[0] == 'field' and x[2] in WANT:
+                        fields.add(x[2])
+        if len(fields) != 1:
+            continue
+        fld = list(fields)[0]
+        n += 1
+        p = core(sym(b, t.args[1]))
+        got = p[2] if p[0] == 'const' and len(p) > 2 else (p[2] if p[0] == 'field' else None)
+        ctx.require(got == WANT[fld], b, 'pad-value|' + fld, 'the %s matrix (line %d) is padded with %s' % (fld, t.span['line'], WANT[fld]),
+                    'the %s matrix at line %d is padded with `%s` instead of %s' % (fld, t.span['line'], show_in(b, sym(b, t.args[1]))[-60:], WANT[fld]), t.span)
+    if n < 6:
+        raise AnchorMissing('pad_ids calls of tensorize whose matrix could be traced to a field (found %d)' % n)
+
+
+@rule('C17', 'R-C17-13', 'T14 RECURRENCE (prefix sums the offset assertion is checked against)',
+      'utils::accumulate_with returns the running totals t_0 = v_0, t_i = f(t_{i-1}, v_i) -- one per value, the total updated BEFORE it is recorded -- '
+      'and [] for no values; utils::accumulate folds with +: token_groups_to_sparse_coo_matrix asserts its running offset against '
+      'accumulate(lengths)[batch_index], so shifted or stale totals turn a correct batch into a panic')
+def r13(ctx):
+    a = ctx.body('utils::accumulate_with')
+    lps = cfg.loops(a)
+    if len(lps) != 1:
+        raise AnchorMissing('accumulate_with: one loop (found %d)' % len(lps))
+    lp = lps[0]
+    calls = [t for t in a.calls(r'ops::Fn.*::call$|FnMut.*::call_mut$') if t.bb in lp.blocks]
+    pushes = [t for t in a.calls(r'Vec::push$') if t.bb in lp.blocks]
+    if len(calls) != 1 or len(pushes) != 1:
+        raise AnchorMissing('accumulate_with: one acc_fn call and one push per value (found %d / %d)' % (len(calls), len(pushes)))
+    tot = state_locals(a, r'^T$')
+    named = [l for l in tot if a.var_name(l)]
+    if len(named) != 1:
+        raise AnchorMissing('accumulate_with: one running total of type T (found %d)' % len(named))
+    tv = named[0]
+    isT = Pred(lambda u: u[0] == 'var' and len(u) > 2 and u[2] == tv)
+    # sequence of the result
+    rvs = [(v, blk) for v, blk in ret_values(a)]
+    full = [(v, blk) for v, blk in rvs if not match(core(v), Call('Vec::new'))]
+    empty = [(v, blk) for v, blk in rvs if match(core(v), Call('Vec::new'))]
+    ok = len(full) == 1
+    segs = seq_of(ctx.facts, a, full[0][0]) if ok else None
+    from rules.common import range_bounds, emptiness_at
+    ok = segs is not None and len(segs) == 2 and segs[0].kind == 'one' and segs[1].kind == 'each' and not segs[0].conds and not segs[1].conds and \
+        match(core(segs[0].elem), isT) and match(core(segs[1].elem), isT) and \
+        match(core(segs[1].src), Call('index', ('arg', 1, ANY), ('agg', 'adt', Pred(lambda n: n.endswith('RangeFrom::RangeFrom')), (Const(1),))))
+    ctx.require(ok, a, 'acc-sequence', 'accumulate_with records the first total, then one total per value of values[1..]',
+                'accumulate_with builds %s' % [repr(x)[:120] for x in segs or ()])
+    for v, blk in empty:
+        ctx.require(emptiness_at(a, blk, lambda c: c[0] == 'arg' and c[1] == 1) is True, a, 'acc-empty', '[] is returned only for no values', None, a.blocks[blk].term.span)
+    # the step: total := acc_fn(total, v) with v the value of this iteration, before the push
+    c = calls[0]
+    args = core(sym(a, c.args[1]))
+    nx = [t for t in a.calls(r'::next$') if t.bb in lp.blocks]
+    item = ('unwrap', nosite(sym(a, nx[0].dest))) if len(nx) == 1 else None
+    ok = args[0] == 'agg' and len(args[3]) == 2 and match(core(args[3][0]), isT) and item is not None and nosite(core(args[3][1])) == nosite(core(item))
+    ctx.require(ok, a, 'acc-step-args', 'the step is acc_fn(&total, &value of this iteration)', 'the step is acc_fn%s' % show_in(a, args)[:100], c.span)
+    stores = [(s_, v_) for s_, v_ in local_defs(a, tv) if s_.bb in lp.blocks]
+    ok = len(stores) == 1 and nosite(core(stores[0][1])) == nosite(core(sym(a, c.dest)))
+    ctx.require(ok, a, 'acc-step-store', 'the result of the step becomes the running total', 'stores to the total inside the loop: %s' % [show_in(a, v_)[:60] for s_, v_ in stores])
+    if ok:
+        ctx.require(cfg.dominates(a, stores[0][0].bb, pushes[0].bb) and (stores[0][0].bb != pushes[0].bb), a, 'acc-update-before-record',
+                    'the total is updated before it is recorded', 'the total is recorded (line %d) before it is updated (line %d): every entry lags one value behind' % (
+                        pushes[0].span['line'], stores[0][0].span['line']), pushes[0].span)
+    inits = [core(v_) for s_, v_ in local_defs(a, tv) if s_.bb not in lp.blocks]
+    ok = len(inits) == 1 and match(inits[0], Call('Clone::clone', ('unwrap', Call('slice::first', ('arg', 1, ANY))))) or \
+        (len(inits) == 1 and match(inits[0], ('unwrap', Call('slice::first', ('arg', 1, ANY))))) or \
+        (len(inits) == 1 and match(inits[0], ('index', ('arg', 1, ANY), Const(0)))) or \
+        (len(inits) == 1 and match(inits[0], Call('slice::first', ('arg', 1, ANY))))
+    ctx.require(ok, a, 'acc-init', 'the running total starts as the first value', 'the running total starts as %s' % [show_in(a, x)[:60] for x in inits])
+    ac = ctx.body('utils::accumulate')
+    rv = ret_values(ac)
+    ok = len(rv) == 1 and match(core(rv[0][0]), Call('accumulate_with', ('arg', 1, ANY), ANY))
+    if ok:
+        clo = closure_of(ctx, peel(rv[0][0])[2][1])
+        crv = ret_values(clo)
+        ok = len(crv) == 1 and (match(core(crv[0][0]), ('bin', 'Add', ('arg', 2, ANY), ('arg', 3, ANY))) or match(core(crv[0][0]), ('bin', 'Add', ('arg', 3, ANY), ('arg', 2, ANY))))
+    ctx.require(ok, ac, 'acc-plus', 'accumulate = accumulate_with(values, |a, v| a + v)', 'accumulate is %s' % [show_in(ac, v)[:100] for v, _ in rv])
+    tg = ctx.body('tokenization::token_groups_to_sparse_coo_matrix')
+    use = [t for t in tg.calls(r'utils::accumulate$')]
+    ctx.require(len(use) == 1 and match(core(sym(tg, use[0].args[0])), ('arg', 2, ANY)), tg, 'acc-of-lengths', 'the offsets are checked against accumulate(lengths)', None,
+                use[0].span if use else None)
